@@ -13,17 +13,22 @@ Local Open Scope N_scope.
 Record flags10 := mk_f10 { f_node : option (bool * bool); f_ignore : bool; f_local : bool; f_obs : breason }.
 Record ecase10 := mk_ecase10 { e_id : N; e_me : N; e_advs : list (list N); e_eps : list (list bep); e_obs : list flags10 }.
 
+(* the DECISION must agree; the reported reason must be one whose condition holds (any of them) *)
 Definition case10_ok (c : ecase10) : bool :=
-  forallb (fun f => breason_eqb
-     (bgp_decide (e_me c) {| bv_advs := e_advs c; bv_node := f_node f; bv_ignore := f_ignore f;
-                             bv_local := f_local f; bv_eps := e_eps c |}) (f_obs f)) (e_obs c).
+  forallb (fun f =>
+     let v := {| bv_advs := e_advs c; bv_node := f_node f; bv_ignore := f_ignore f; bv_local := f_local f; bv_eps := e_eps c |} in
+     Bool.eqb (breason_eqb (bgp_decide (e_me c) v) RAnnounce) (breason_eqb (f_obs f) RAnnounce) &&
+     reason_applies (e_me c) v (f_obs f)) (e_obs c).
 Definition mismatches10 (cs : list ecase10) : list N := map e_id (filter (fun c => negb (case10_ok c)) cs).
 
 (* ---- C05 ---- *)
-Definition subset_ads (a b : list adv) : bool := forallb (fun x => existsb (adv_eqb x) b) a.
-Definition set_eq_ads (a b : list adv) : bool := subset_ads a b && subset_ads b a.
 Definition subsetN (a b : list N) : bool := forallb (fun x => existsb (N.eqb x) b) a.
 Definition set_eqN (a b : list N) : bool := subsetN a b && subsetN b a.
+(* the peers an advertisement names are a SET (order and storage are representation choices); communities are sorted by the code *)
+Definition adv_same (a b : adv) : bool :=
+  prefix_eqb (ad_pfx a) (ad_pfx b) && (ad_lp a =? ad_lp b) && listN_eqb (ad_comms a) (ad_comms b) && set_eqN (ad_peers a) (ad_peers b).
+Definition subset_ads (a b : list adv) : bool := forallb (fun x => existsb (adv_same x) b) a.
+Definition set_eq_ads (a b : list adv) : bool := subset_ads a b && subset_ads b a.
 
 (* observation after one event: sessions (peer name, ads) of the live sessions; PeersForService per service *)
 (* o_made: for every live session, (attribute, secret reference) of the arguments it was created with *)
